@@ -320,6 +320,33 @@ def degenerate_failure(law: Law, shape, names, assum):
                     return pt, [str(x) for x in vals]
             except Exception:
                 pass
+    # fully CONCRETE signed points: code that branches on the sign / value of an operand (`x.is_negative`, `x < 0`) takes no such
+    # branch on generic symbols; two fixed signed rational points per obligation exercise them (bounded supplement)
+    for j in range(2):
+        rng2 = random.Random(seed() * 131 + 17 * j + 3)
+        pt = {}
+        for n in names:
+            a = (assum or {}).get(n, {})
+            v = sp.Rational(rng2.randint(1, 9), rng2.randint(1, 4))
+            if not (a.get("positive") or a.get("nonnegative")) and (a.get("negative") or rng2.random() < 0.6):
+                v = -v
+            if a.get("integer"):
+                v = sp.Integer(int(v) or 1)
+            pt[n] = v
+        pt["__seed__"] = 2 + j
+        try:
+            ok, vals = eval_case_at(law, shape, pt)
+        except Exception:
+            continue
+        if not ok:
+            continue
+        _DEG_COUNT[0] += 1
+        for v in vals:
+            try:
+                if v.is_number and not abs(complex(sp.N(v, 30))) <= 1e-9 * max(1.0, max((abs(complex(sp.N(x, 30))) for x in pt.values() if hasattr(x, "is_number")), default=1.0)):
+                    return pt, [str(x) for x in vals]
+            except Exception:
+                pass
     return None
 
 
